@@ -595,3 +595,57 @@ case E1: (grid_initialize (O:=O) xinf xsup yinf ysup nx ny st w) => [[s1 w1]|];
 - by have [e _] := grid_result E2; move/grid_refusal: E1.
 Qed.
 End G.
+
+(* ---------------------------------------------------------------- a factor exists (real closed fields) *)
+
+Section FactorExists.
+Variable R : rcfType.
+Variable tr : Transc R.
+Variable sq : forall n, 'M[R]_n -> 'M[R]_n.
+Variable eg : forall n, 'M[R]_n -> 'M[R]_(n,1).
+Let O := MxMat tr sq eg.
+
+(* the lower-triangular Cholesky factor of q [T^3/3 T^2/2; T^2/2 T] *)
+Definition chol2 (T q : R) : 'M[R]_2 :=
+  let a := Num.sqrt (q * (T ^+ 3 / 3%:R)) in
+  \matrix_(i < 2, j < 2)
+    (if (i == 0%N :> nat) && (j == 0%N :> nat) then a
+     else if (i == 1%N :> nat) && (j == 0%N :> nat) then q * (T ^+ 2 / 2%:R) / a
+     else if (i == 1%N :> nat) && (j == 1%N :> nat) then Num.sqrt (q * T / 4%:R) else 0).
+
+Lemma chol2_factor (T q : R) : 0 < T -> 0 < q ->
+  chol2 T q *m (chol2 T q)^T = q *: (wna_Q2 (O:=O) T : 'M[R]_2).
+Proof.
+move=> T0 q0.
+have A0 : 0 < q * (T ^+ 3 / 3%:R) by rewrite mulr_gt0 // divr_gt0 ?exprn_gt0 // ltr0n.
+have C0 : 0 < q * T / 4%:R by rewrite divr_gt0 ?mulr_gt0 // ltr0n.
+set a := Num.sqrt (q * (T ^+ 3 / 3%:R)).
+set c := Num.sqrt (q * T / 4%:R).
+have aa : a * a = q * (T ^+ 3 / 3%:R) by rewrite -expr2 sqr_sqrtr // ltW.
+have cc : c * c = q * T / 4%:R by rewrite -expr2 sqr_sqrtr // ltW.
+have an0 : a != 0 by rewrite gt_eqF // sqrtr_gt0.
+have Tn0 : T != 0 by rewrite gt_eqF.
+have qn0 : q != 0 by rewrite gt_eqF.
+apply/matrixP => i j; rewrite !mxE !big_ord_recl big_ord0 !mxE /= -/a -/c.
+case: i => [[|[|i]] ?] //; case: j => [[|[|j]] ?] //=; rewrite ?wna_q11E ?wna_q2E ?mulr0 ?mul0r ?addr0 ?add0r.
+- exact: aa.
+- by rewrite mulrC divfK.
+- by rewrite divfK.
+- rewrite cc mulrACA -invfM aa; field.
+  by rewrite Tn0 qn0.
+Qed.
+
+Lemma blocks_scale d (c : R) (B : 'M[R]_2) :
+  blocks (O:=O) d (c *: B) = c *: (blocks (O:=O) d B : 'M[R]_(dim_n d)) :> 'M[R]_(dim_n d).
+Proof.
+case: d; rewrite /blocks //.
+  by rewrite !blocks2_block (@scale_block_mx _ 2 2 2 2) !scaler0.
+by rewrite !blocks3_block (@scale_block_mx _ 2 (2+2) 2 (2+2)) (@scale_block_mx _ 2 2 2 2) !scaler0.
+Qed.
+
+(* in every real closed field the local premise of C16_noise_cov is satisfiable: an explicit factor *)
+Lemma wna_factor_exists d (T q : R) : 0 < T -> 0 < q ->
+  let L : 'M[R]_(dim_n d) := blocks (O:=O) d (chol2 T q) in
+  L *m L^T = wna_Q (O:=O) d T q.
+Proof. by move=> T0 q0 L; rewrite /L blocks_mul_tr chol2_factor // blocks_scale. Qed.
+End FactorExists.
